@@ -189,3 +189,187 @@ Proof. vm_compute. reflexivity. Qed.
 Example ex_check_mask_rejects_wrong_topn :
   check_mask 100 None (Some 1%nat) [mkrow [] 150 0 0; mkrow [] 200 0 0; mkrow [] 90 0 0] [true; false; false] = 7%N.
 Proof. vm_compute. reflexivity. Qed.
+
+(* ==========================================================================
+   10. "Lies inside the image" for the WHOLE pipeline (not only the tail).
+   Model/LocatePipe.locate is locate(raw_image, diameter, ..., preprocess=False) on an
+   integer image, composed from the models of C06 (grey_dilation with locate's
+   margin = max(radius, separation//2 - 1, smoothing_size//2)), C07 (refine_com, python
+   or numba engine, shift_thresh 0.6) and the tail above (where_close, filters, topn,
+   ep with measure_noise); np.percentile and np.sqrt are arbitrary functions.
+   [None] = locate raises.  For every image with non-negative pixels (unsigned dtype,
+   or anything bandpass returned), every radius >= 0 (diameter >= 1), separation,
+   smoothing_size, noise_size, percentile, max_iterations, characterize, minmass,
+   maxsize, topn (for engine='numba': >= 2 axes and diameter >= 3, where the kernels
+   are proved equal to the reference), every returned feature has
+     0 <= coordinate <= shape - 1 on every axis,
+   and, sharper: it lies in the mask window (within radius_d of the centre along axis d)
+   of a window centre c that keeps the distance radius from every border:
+     radius_d <= c_d <= shape_d - 1 - radius_d  and  c_d - radius_d <= pos_d <= c_d + radius_d.
+   (The bound 0 / shape-1 itself is attained only when all the brightness of the last
+   window sits in its outermost pixel.) *)
+From Coq Require Import ZArith String.
+From TP Require Import Model.Dilation Model.COM Model.LocatePipe Model.StaticError Proofs.LocatePipe Proofs.StaticError.
+
+Theorem C08_inside_image : forall (percentile : list Z -> Q) (sqrtf : Q -> Q) L im out,
+  (forall p, (0 <= pix im p)%Z) ->
+  Forall (fun r => (0 <= r)%Z) (l_radius L) ->
+  List.length (l_radius L) = List.length (shape im) ->
+  List.length (l_sep L) = List.length (shape im) -> List.length (l_smooth L) = List.length (shape im) ->
+  (l_numba L = true -> (2 <= List.length (l_radius L))%nat /\ Forall (fun r => (1 <= r)%Z) (l_radius L)) ->
+  locate percentile sqrtf L im = Some out ->
+  Forall (fun x => in_a_window (l_radius L) (shape im) (r_pos (snd (fst x))) /\
+                   inside_image (map inject_Z (shape im)) (r_pos (snd (fst x)))) out.
+Proof. exact locate_inside_image. Qed.
+Print Assumptions C08_inside_image.
+
+(*     The ingredient about one refinement: whatever the start window inside the image,
+       the position _refine reports lies in the mask window of an admissible centre. *)
+Theorem C08_refined_position_in_window : forall pix rawpix radius shape thresh maxit ch start,
+  (forall p, (0 <= pix p)%Z) -> Forall (fun r => (0 <= r)%Z) radius ->
+  List.length start = List.length radius -> window_inside radius shape start ->
+  in_a_window radius shape (o_pos (refine_python pix rawpix radius shape thresh maxit ch start)).
+Proof. exact refine_python_in_window. Qed.
+Print Assumptions C08_refined_position_in_window.
+
+(*     The premise "non-negative pixels" is needed: on a signed image with a negative
+       pixel next to the maximum the centroid leaves the window and the image.  The real
+       locate(np.array([[0,0,0],[0,5,-4],[0,0,0]], np.int16), 3, preprocess=False,
+       percentile=0) returns x = -3.0, as the model does. *)
+Definition ex_negative_image : image :=
+  {| shape := [3; 3]%Z;
+     data := Node (map (fun r => Node (map Leaf r)) [[0; 0; 0]; [0; 5; -4]; [0; 0; 0]]%Z) |}.
+Definition ex_negative_params : lparams :=
+  mkL [1; 1]%Z [4; 4] [3; 3] [1; 1] 10 true false 0 None None.
+
+Theorem C08_inside_needs_nonnegative_pixels :
+  option_map (map (fun x => r_pos (snd (fst x))))
+             (locate (fun _ => 0) (fun q => q) ex_negative_params ex_negative_image)
+  = Some [[1; -3]].
+Proof. vm_compute. reflexivity. Qed.
+
+(* ==========================================================================
+   11. The static error on ALL its columns.  Model/StaticError.v models
+   trackpy.uncertainty._static_error with both branches -- isotropic (all radii equal and
+   all noise sizes equal: one value per feature, column 'ep') and anisotropic (one value
+   per feature and axis, columns ep_<axis>) -- in float64 arithmetic with NaN and +-inf,
+   the block of locate that calls it (mass = raw_mass - Npx * black_level; ep[ep<0] = nan;
+   column 'ep' or frame ep_z/ep_y/ep_x) and the public static_error (reversed tuples,
+   scalar or per-feature noise, ep[ep<0] = nan, columns ep_x/ep_y/ep_z).
+   For ALL inputs -- any radii, noise sizes (negative ones included), black level and
+   noise (NaN, infinite), raw masses below the background, any sqrt -- no entry of any
+   ep column is negative: each is NaN, +inf or a number >= 0. *)
+Theorem C08_locate_ep_columns_not_negative : forall sqrtf radius noise_size black noise raw_mass,
+  Forall (fun c => Forall ep_not_negative (snd c))
+         (locate_ep sqrtf radius noise_size black noise raw_mass).
+Proof. exact locate_ep_not_negative. Qed.
+Print Assumptions C08_locate_ep_columns_not_negative.
+
+Theorem C08_static_error_columns_not_negative : forall sqrtf mass noise diameter noise_size,
+  Forall (fun c => Forall ep_not_negative (snd c))
+         (static_error sqrtf mass noise diameter noise_size).
+Proof. exact static_error_not_negative. Qed.
+Print Assumptions C08_static_error_columns_not_negative.
+
+(*     Which columns locate attaches, and that each has one entry per feature. *)
+Theorem C08_locate_ep_column_names : forall sqrtf radius noise_size black noise raw_mass,
+  map fst (locate_ep sqrtf radius noise_size black noise raw_mass) =
+    (if ep_iso radius noise_size then ["ep"%string]
+     else map (fun cc => String.append "ep_"%string cc) (pos_columns (List.length radius))) /\
+  Forall (fun c => List.length (snd c) = List.length raw_mass)
+         (locate_ep sqrtf radius noise_size black noise raw_mass).
+Proof. exact locate_ep_columns. Qed.
+Print Assumptions C08_locate_ep_column_names.
+
+(*     The array model and the per-row formula of the tail (theorems 1, 6 above; the
+       formula the correspondence run compares with locate's own columns) are the same
+       function: entry by entry the same float64 value, in both branches, including the
+       NaN / +inf cases (noise or black level not measurable, raw_mass = Npx*black_level). *)
+Theorem C08_static_error_is_tail_formula : forall sqrtf radius noise_size black noise raws,
+  Forall2 (Forall2 feq)
+    (ep_table (locate_ep_arr sqrtf radius noise_size (of_opt black) (of_opt noise) raws))
+    (map (fun raw => ep_row noise black (inject_Z (n_mask radius)) (ep_consts sqrtf radius noise_size)
+                            (mkrow [] 0 0 raw)) raws).
+Proof. exact locate_ep_is_tail_ep. Qed.
+Print Assumptions C08_static_error_is_tail_formula.
+
+(* ---- non-vacuity for 10 and 11 ---- *)
+(* a 9 x 11 image with two blobs, diameter 5, separation 3, threshold 1: hypotheses of
+   C08_inside_image hold and two features are returned (python and numba engine) *)
+Definition ex_pipe_image : image :=
+  {| shape := [9; 11]%Z;
+     data := Node (map (fun r => Node (map Leaf r))
+       [[0;0;0;0;0;0;0;0;0;0;0]; [0;0;0;0;0;0;0;0;0;0;0]; [0;0;1;2;1;0;0;0;0;0;0];
+        [0;0;2;9;4;0;0;0;0;0;0]; [0;0;1;3;1;0;0;1;2;0;0]; [0;0;0;0;0;0;1;3;8;1;0];
+        [0;0;0;0;0;0;0;2;3;0;0]; [0;0;0;0;0;0;0;0;0;0;0]; [0;0;0;0;0;0;0;0;0;0;0]]%Z) |}.
+Definition ex_pipe_params (numba : bool) : lparams :=
+  mkL [2; 2]%Z [3; 3] [5; 5] [1; 3 # 2] 10 true numba 0 None None.
+
+Example ex_pipe_runs : forall numba,
+  option_map (map (fun x => map Qred (r_pos (snd (fst x)))))
+             (locate (fun _ => 1) (fun q => q) (ex_pipe_params numba) ex_pipe_image)
+  = Some [[73 # 24; 37 # 12]; [107 # 21; 23 # 3]].
+Proof. intros [|]; vm_compute; reflexivity. Qed.
+
+Example ex_pipe_hyps : forall numba,
+  Forall (fun r => (0 <= r)%Z) (l_radius (ex_pipe_params numba)) /\
+  (2 <= List.length (l_radius (ex_pipe_params numba)))%nat /\
+  Forall (fun r => (1 <= r)%Z) (l_radius (ex_pipe_params numba)).
+Proof. intros. cbn. repeat split; repeat constructor; discriminate. Qed.
+
+(* anisotropic static error (radius (4,5), black level 10, noise 2): the feature darker
+   than the background (raw_mass 100 < 63 * 10) and the one exactly at the background
+   get NaN / +inf in BOTH columns, the bright one positive numbers *)
+Example ex_locate_ep_aniso :
+  map (fun c => (fst c, map (fun v => match v with FVal e => Some (Qred e) | _ => None end) (snd c)))
+      (locate_ep (fun q => q) [4; 5]%Z [1; 1] (FVal 10) (FVal 2) [100; 3000; 630])
+  = [("ep_y"%string, [None; Some (248 # 1185); None]); ("ep_x"%string, [None; Some (406 # 1185); None])] /\
+  map snd (locate_ep (fun q => q) [4; 5]%Z [1; 1] (FVal 10) (FVal 2) [100; 630])
+  = [[FNaN; FPInf]; [FNaN; FPInf]].
+Proof. vm_compute. split; reflexivity. Qed.
+
+(* the comparison run on the implementation's ep columns (Model/StaticErrorCheck.v)
+   accepts the model's own frame and rejects a frame with the columns swapped or with
+   a negative entry where the model has NaN *)
+From TP Require Import Model.StaticErrorCheck.
+Definition ex_se_table : list (Q * Q) := [(248, 16); (406, 20)].
+
+Example ex_check_se_accepts :
+  check_se (1 # 1000000000)
+    (SELocate ex_se_table [4; 5]%Z [1; 1] (FVal 10) (FVal 2) [100; 3000]
+              [("ep_y"%string, [FNaN; FVal (32 # 2370)]); ("ep_x"%string, [FNaN; FVal (40 # 2370)])]) = 0%N.
+Proof. vm_compute. reflexivity. Qed.
+
+Example ex_check_se_rejects :
+  check_se (1 # 1000000000)
+    (SELocate ex_se_table [4; 5]%Z [1; 1] (FVal 10) (FVal 2) [100; 3000]
+              [("ep_x"%string, [FNaN; FVal (40 # 2370)]); ("ep_y"%string, [FNaN; FVal (32 # 2370)])]) = 2%N /\
+  check_se (1 # 1000000000)
+    (SELocate ex_se_table [4; 5]%Z [1; 1] (FVal 10) (FVal 2) [100; 3000]
+              [("ep_y"%string, [FVal (- (32 # 530)); FVal (32 # 2370)]); ("ep_x"%string, [FNaN; FVal (40 # 2370)])]) = 11%N.
+Proof. vm_compute. split; reflexivity. Qed.
+
+(* 12. That comparison is a sound monitor: when it answers 0 on columns observed on the
+   implementation (tolerance at most 1), these carry the model's column names in the
+   model's order and none of their entries is negative. *)
+Theorem C08_check_se_sound : forall tol c, 0 <= tol -> tol <= 1 -> check_se tol c = 0%N ->
+  let observed := match c with SELocate _ _ _ _ _ _ o => o | SEStatic _ _ _ _ _ o => o end in
+  Forall (fun col => Forall ep_not_negative (snd col)) observed /\
+  map fst observed =
+    match c with
+    | SELocate t radius ns black noise raws _ => map fst (locate_ep (sqrt_table t) radius ns black noise raws)
+    | SEStatic t mass noise diameter ns _ => map fst (static_error (sqrt_table t) mass noise diameter ns)
+    end.
+Proof. exact check_se_sound. Qed.
+Print Assumptions C08_check_se_sound.
+
+(* the measure_noise comparison (Model/LocatePipeCheck.v) accepts the model's own answer:
+   3 x 3 image with one lit pixel in a corner, radius 1: six background pixels (mean 4, variance 20/3) *)
+From TP Require Import Model.LocatePipeCheck.
+Example ex_check_noise_accepts :
+  check_noise (1 # 1000000000)
+    (mk_ncase [(20 # 3, 5 # 2)]
+       {| shape := [3; 3]%Z; data := Node (map (fun r => Node (map Leaf r)) [[7; 0; 0]; [0; 0; 0]; [0; 0; 0]]%Z) |}
+       {| shape := [3; 3]%Z; data := Node (map (fun r => Node (map Leaf r)) [[9; 9; 1]; [9; 2; 3]; [4; 5; 9]]%Z) |}
+       [1; 1]%Z (Some 4) (Some (5 # 2))) = 0%N.
+Proof. vm_compute. reflexivity. Qed.
